@@ -12,7 +12,9 @@ UNKNOWN = "\x00unknown"
 
 
 class DecodeError(Exception):
-    pass
+    def __init__(self, msg, side=None):
+        super().__init__(msg)
+        self.side = side
 
 
 _NUM = re.compile(r"^[+-]?(\d+(\.\d*)?|\.\d+)([eE][+-]?\d+)?$")
@@ -79,8 +81,9 @@ class RLab:
 class Robot:
     """Executes records; collects limit excursions in `self.excursions`."""
 
-    def __init__(self, device, labware_specs, per_record_slack=Fraction(0), eps=Fraction(0)):
+    def __init__(self, device, labware_specs, per_record_slack=Fraction(0), eps=Fraction(0), track_comp=True):
         self.device = device
+        self.track_comp = track_comp
         self.labs = {}
         self.by_site = {}
         for s in labware_specs:
@@ -120,6 +123,7 @@ class Robot:
         new = old + v
         if v > 0:
             lab.added_to.add(w)
+        if v > 0 and self.track_comp:
             if comp is None:
                 tainted = True
                 comp = {}
@@ -131,7 +135,9 @@ class Robot:
                     mixed[k] = mixed.get(k, 0) + f * v / new
             else:
                 # an empty well (or one driven negative by an excursion) takes the incoming composition
+                # and forgets whatever was unknown about its former content
                 mixed = dict(comp)
+                lab.taint.discard(w)
             lab.comp[w] = {k: f for k, f in mixed.items() if f != 0}
             if tainted:
                 lab.taint.add(w)
@@ -242,9 +248,9 @@ class Robot:
         try:
             srcw = {src.geo.from_position(self.device, p) for p in range(ss, se + 1)}
         except KeyError:
-            raise DecodeError(f"source range {ss}..{se} does not exist on {f[1]!r} ({self.device})")
+            raise DecodeError(f"source range {ss}..{se} does not exist on {f[1]!r} ({self.device})", "source")
         if len(srcw) != 1:
-            raise DecodeError("source range spans several real wells")
+            raise DecodeError(f"source range {ss}..{se} spans several real wells of {f[1]!r} ({self.device})", "source")
         (sw,) = srcw
         for e in excl:
             if not ds <= e <= de:
@@ -252,7 +258,7 @@ class Robot:
         try:
             dws = [dst.geo.from_position(self.device, p) for p in range(ds, de + 1) if p not in set(excl)]
         except KeyError:
-            raise DecodeError(f"destination range {ds}..{de} does not exist on {f[6]!r} ({self.device})")
+            raise DecodeError(f"destination range {ds}..{de} does not exist on {f[6]!r} ({self.device})", "destination")
         self.n_exec += 1
         comp = dict(src.comp[sw])
         tainted = sw in src.taint
